@@ -1,0 +1,104 @@
+//go:build verif
+
+package kernel
+
+// C29  "Operator election is deterministic and never selects the node it removes".
+//
+// Machine-checked: electSnapshotNode returns acc[1 + (day + op) % (len(acc) - 2)].IdForNetwork with acc the accepted view below `now`
+// and day = (now - Epoch) / 24h in wrapping uint64 arithmetic, for the five elected operations, the zero hash otherwise; it panics
+// exactly when that view has fewer than 7 members; it writes nothing. The postcondition is functional: the result is an expression
+// of (acceptedNodeStateSequences, Epoch, operation, now) only, which is the determinism claim relative to the cached view (that every
+// node holds the same view is C11). The index lies in [1, len-2]: never acc[0] nor acc[len-1] as a position; as an *id* this needs
+// pairwise distinct ids in the view (DistinctIds: true by construction in nodeSequenceWithoutState, map keyed by id; not proved here).
+// checkRemovePossibility: err == nil ==> candidate listed in the view at `now`, not the proposer (IdForNetwork != nodeId), now >= Epoch,
+// accept-hour window, view has > 7 members; with old == nil also: every listed node is ACCEPTED/CANCELLED/REMOVED (so nobody is
+// pledging) and settled for >= 12h, and the candidate is the first ACCEPTED entry (the oldest accepted node).
+// Hour predicates are exact (wrapping subtraction as written). Not under contract: validateNode{Pledge,Cancel,Accept,Remove}Snapshot,
+// checkNodeAcceptPossibility (storage, clock, chain state) -- that they call the hour predicates is visible at election.go:247/505/564 only.
+
+// ───────────── election.go / slash.go (C29) ─────────────
+
+//@ spec U64(x int) int = x % 18446744073709551616
+//@ spec HourOf(node *Node, ts uint64) int = (U64(ts - node.Epoch) / 3600000000000) % 24
+//@ spec DayOf(node *Node, ts uint64) int = U64(ts - node.Epoch) / 86400000000000
+//@ spec AcceptHour(node *Node, ts uint64) bool = config.KernelNodeAcceptTimeBegin <= HourOf(node, ts) && HourOf(node, ts) <= config.KernelNodeAcceptTimeEnd
+//@ spec MintHour(node *Node, ts uint64) bool = config.KernelMintTimeBegin <= HourOf(node, ts) && HourOf(node, ts) <= config.KernelMintTimeEnd
+
+//@ func (node *Node) checkConsensusAcceptHour
+//@   property C29, C10
+//@   requires node != nil
+//@   pure
+//@   ensures result <==> AcceptHour(node, timestamp)
+
+//@ func (node *Node) checkConsensusPledgeHour
+//@   property C29
+//@   requires node != nil
+//@   pure
+//@   ensures result <==> !MintHour(node, timestamp) && !AcceptHour(node, timestamp)
+
+//@ lemma HourWindows(h int)
+//@   property C29
+//@   requires 0 <= h && h < 24
+//@   ensures [accept] (config.KernelNodeAcceptTimeBegin <= h && h <= config.KernelNodeAcceptTimeEnd) <==> (13 <= h && h <= 19)
+//@   ensures [pledge] (!(config.KernelMintTimeBegin <= h && h <= config.KernelMintTimeEnd) && !(config.KernelNodeAcceptTimeBegin <= h && h <= config.KernelNodeAcceptTimeEnd)) <==> (h <= 6 || (10 <= h && h <= 12) || h >= 20)
+
+//@ spec OpElected(op byte) bool = op == common.TransactionTypeMint || op == common.TransactionTypeNodeRemove || op == common.TransactionTypeNodePledge ||
+//@     op == common.TransactionTypeCustodianUpdateNodes || op == common.TransactionTypeCustodianSlashNodes
+//@ spec DistinctIds(l []*CNode) bool = forall a, b int :: 0 <= a && a < b && b < len(l) ==> l[a].IdForNetwork != l[b].IdForNetwork
+//@ spec ElectIdx(node *Node, op byte, now uint64, n int) int = 1 + (DayOf(node, now) + op) % (n - 2)
+
+//@ spec Elected(node *Node, op byte, now uint64, acc []*CNode, id crypto.Hash) bool =
+//@     len(acc) >= config.KernelMinimumNodesCount && 1 <= ElectIdx(node, op, now, len(acc)) && ElectIdx(node, op, now, len(acc)) <= len(acc) - 2 &&
+//@     id == acc[ElectIdx(node, op, now, len(acc))].IdForNetwork &&
+//@     (DistinctIds(acc) ==> id != acc[0].IdForNetwork && id != acc[len(acc) - 1].IdForNetwork)
+
+//@ func (node *Node) electSnapshotNode
+//@   property C29
+//@   requires NodeRep(node)
+//@   panics when OpElected(operation) && (NoList(node.acceptedNodeStateSequences, now) ||
+//@       (exists i int :: ListIdx(node.acceptedNodeStateSequences, now, i) && len(node.acceptedNodeStateSequences[i].NodesWithoutState) < config.KernelMinimumNodesCount))
+//@   modifies nothing
+//@   ensures [other] !OpElected(operation) ==> forall k int :: 0 <= k && k < 32 ==> result[k] == 0
+//@   ensures [elected] OpElected(operation) ==> exists i int :: ListIdx(node.acceptedNodeStateSequences, now, i) &&
+//@       Elected(node, operation, now, node.acceptedNodeStateSequences[i].NodesWithoutState, result)
+
+// ───────────── removal candidate ─────────────
+
+//@ spec StateSettled(s string) bool = s == common.NodeStateAccepted || s == common.NodeStateCancelled || s == common.NodeStateRemoved
+//@ spec LastPledging(l []*CNode, p *CNode) bool = (len(l) > 0 && l[len(l) - 1].State == common.NodeStatePledging) ? p == l[len(l) - 1] : p == nil
+
+//@ func (node *Node) PledgingNode
+//@   property C29, C10
+//@   requires NodeRep(node)
+//@   modifies nothing
+//@   ensures [state] result != nil ==> result.State == common.NodeStatePledging
+//@   ensures [last] (NoList(node.nodeStateSequences, timestamp) && result == nil) ||
+//@       (exists i int :: ListIdx(node.nodeStateSequences, timestamp, i) && LastPledging(node.nodeStateSequences[i].NodesWithoutState, result))
+
+//@ spec AllSettled(l []*CNode, now uint64, upto int) bool = forall k int :: 0 <= k && k <= upto && k < len(l) ==>
+//@     StateSettled(l[k].State) && l[k].Timestamp + config.KernelNodePledgePeriodMinimum <= now && now - l[k].Timestamp < 9223372036854775808
+//@ spec OldestAccepted(l []*CNode, upto int, c *CNode) bool = exists j int :: 0 <= j && j <= upto && j < len(l) && c == l[j] &&
+//@     l[j].State == common.NodeStateAccepted && (forall m int :: 0 <= m && m < j ==> l[m].State != common.NodeStateAccepted)
+//@ spec Listed(l []*CNode, upto int, c *CNode) bool = exists j int :: 0 <= j && j <= upto && j < len(l) && c == l[j]
+
+//@ func (node *Node) checkRemovePossibility
+//@   property C29, C10
+//@   requires NodeRep(node)
+//@   requires old != nil ==> common.TxPayloadOK(&old.SignedTransaction.Transaction) -- what PayloadHash needs; callers pass nil or a decoded transaction
+//@   modifies old.hash, old.pmbytes
+//@   ensures [candidate] (err == nil <==> result0 != nil) && (err == nil ==> result0.IdForNetwork != nodeId && now >= node.Epoch && AcceptHour(node, now))
+//@   ensures [listed] err == nil ==> exists i int :: ListIdx(node.nodeStateSequences, now, i) &&
+//@       len(node.nodeStateSequences[i].NodesWithoutState) > config.KernelMinimumNodesCount &&
+//@       Listed(node.nodeStateSequences[i].NodesWithoutState, len(node.nodeStateSequences[i].NodesWithoutState), result0) &&
+//@       (old == nil ==> AllSettled(node.nodeStateSequences[i].NodesWithoutState, now, len(node.nodeStateSequences[i].NodesWithoutState)) &&
+//@                       OldestAccepted(node.nodeStateSequences[i].NodesWithoutState, len(node.nodeStateSequences[i].NodesWithoutState), result0))
+//@   loop 0 invariant forall k int :: 0 <= k && k < len(rangeexpr) ==> rangeexpr[k] == old(rangeexpr[k]) && rangeexpr[k] != nil
+//@   loop 0 invariant old != nil ==> common.TxPayloadOK(&old.SignedTransaction.Transaction)
+//@   loop 0 invariant cap(accepted) == 0 || fresh(accepted)
+//@   loop 0 invariant 0 <= len(accepted) && len(accepted) <= rangeindex + 1
+//@   loop 0 invariant old == nil ==> candi == nil
+//@   loop 0 invariant candi != nil ==> Listed(rangeexpr, rangeindex, candi)
+//@   loop 0 invariant old == nil ==> AllSettled(rangeexpr, now, rangeindex)
+//@   loop 0 invariant len(accepted) == 0 ==> forall k int :: 0 <= k && k <= rangeindex ==> (rangeexpr[k].State != common.NodeStateAccepted || old != nil)
+//@   loop 0 invariant len(accepted) > 0 ==> Listed(rangeexpr, rangeindex, accepted[0])
+//@   loop 0 invariant len(accepted) > 0 && old == nil ==> OldestAccepted(rangeexpr, rangeindex, accepted[0])
